@@ -484,6 +484,20 @@ def run_batch(prop: str, tier: str, base_seed: int, jobs: int) -> int:
     if hasattr(chk, 'batch_extra') and not harness_errors:
         try:
             xvs, extra_cov = chk.batch_extra(tier)
+            if xvs:
+                # Real-OS probes run in real time on a shared machine.  An anomaly must reproduce in two
+                # further, independent executions of the probe before it is reported (a persistent
+                # defect does; a scheduling hiccup under load does not).
+                confirmed = xvs
+                for _ in range(2):
+                    again, _cov = chk.batch_extra(tier)
+                    keys = {(v['code'], json.dumps(v['sig'], sort_keys=True, default=repr)) for v in again}
+                    confirmed = [v for v in confirmed if (v['code'], json.dumps(v['sig'], sort_keys=True, default=repr)) in keys]
+                    if not confirmed:
+                        break
+                extra_cov = dict(extra_cov or {})
+                extra_cov['real_probe_anomalies_not_reproduced'] = len(xvs) - len(confirmed)
+                xvs = confirmed
         except Exception as ex:
             xvs = []
             harness_errors.append(f'batch_extra failed: {type(ex).__name__}: {ex}')
